@@ -1,0 +1,136 @@
+//go:build verif
+
+// Verification hooks: read-only accessors for internal state and position functions, and a
+// setter for the package-level Redis client. Compiled only with `-tags verif`; the library
+// and its test suite are unaffected when the tag is off.
+package gostatix
+
+import (
+	"github.com/redis/go-redis/v9"
+)
+
+// VerifSetRedisClient replaces the package-level Redis client (MakeRedisClient uses sync.Once).
+func VerifSetRedisClient(c *redis.Client) { redisClient = c }
+
+// VerifGetRedisClient returns the package-level Redis client.
+func VerifGetRedisClient() *redis.Client { return redisClient }
+
+// ---- hashing / position functions ----
+
+func VerifBloomHashes(data []byte) [2]uint64 { return getHashes(data) }
+
+func VerifBloomIndex(f *BloomFilter, hashes [2]uint64, i uint) uint { return f.getIndex(hashes, i) }
+
+func VerifMurmur(data []byte) uint64 { return getHash(data) }
+
+func VerifCuckooPositions(f *CuckooFilter, data []byte) (string, uint64, uint64, error) {
+	return f.getPositions(data)
+}
+
+func VerifCuckooRedisPositions(f *CuckooFilterRedis, data []byte) (string, uint64, uint64, error) {
+	return f.getPositions(data)
+}
+
+func VerifCMSPositions(s *CountMinSketch, data []byte) []uint { return s.getPositions(data) }
+
+func VerifCMSRedisPositions(s *CountMinSketchRedis, data []byte) []uint {
+	return s.getPositions(data)
+}
+
+func VerifHLLIndexCount(h *HyperLogLog, data []byte) (uint64, uint64) {
+	return h.getRegisterIndexAndCount(data)
+}
+
+func VerifHLLRedisIndexCount(h *HyperLogLogRedis, data []byte) (uint64, uint64) {
+	return h.getRegisterIndexAndCount(data)
+}
+
+// ---- raw state of the in-memory structures ----
+
+// VerifBloomState returns (size, numHashes, bitset length, bitset words) of an in-memory filter.
+func VerifBloomState(f *BloomFilter) (uint, uint, uint, []uint64, bool) {
+	m, ok := f.filter.(*BitSetMem)
+	if !ok {
+		return f.size, f.numHashes, 0, nil, false
+	}
+	w := m.set.Bytes()
+	out := make([]uint64, len(w))
+	copy(out, w)
+	return f.size, f.numHashes, m.set.Len(), out, true
+}
+
+// VerifBloomRedisKey returns the bitset key and cached bitset size of a Redis-backed filter.
+func VerifBloomRedisKey(f *BloomFilter) (string, uint, bool) {
+	r, ok := f.filter.(*BitSetRedis)
+	if !ok {
+		return "", 0, false
+	}
+	return r.key, r.size, true
+}
+
+// VerifCuckooState returns bucket slots, bucket length counters and the filter length.
+func VerifCuckooState(f *CuckooFilter) ([][]string, []uint64, []uint64, uint64) {
+	slots := make([][]string, len(f.buckets))
+	lens := make([]uint64, len(f.buckets))
+	sizes := make([]uint64, len(f.buckets))
+	for i := range f.buckets {
+		slots[i] = append([]string(nil), f.buckets[i].elements...)
+		lens[i] = f.buckets[i].length
+		sizes[i] = f.buckets[i].size
+	}
+	return slots, lens, sizes, f.length
+}
+
+func VerifCuckooParams(f *CuckooFilter) (uint64, uint64, uint64, uint64) {
+	return f.size, f.bucketSize, f.fingerPrintLength, f.retries
+}
+
+func VerifCuckooRedisKeys(f *CuckooFilterRedis) (string, string) { return f.key, f.metadataKey }
+
+func VerifCuckooRedisParams(f *CuckooFilterRedis) (uint64, uint64, uint64, uint64) {
+	return f.size, f.bucketSize, f.fingerPrintLength, f.retries
+}
+
+// VerifCMSState returns (rows, columns, allSum, matrix copy).
+func VerifCMSState(s *CountMinSketch) (uint, uint, uint64, [][]uint64) {
+	m := make([][]uint64, len(s.matrix))
+	for i := range s.matrix {
+		m[i] = append([]uint64(nil), s.matrix[i]...)
+	}
+	return s.rows, s.columns, s.allSum, m
+}
+
+func VerifCMSRedisState(s *CountMinSketchRedis) (uint, uint, uint64, string, string) {
+	return s.rows, s.columns, s.allSum, s.key, s.metadataKey
+}
+
+// VerifHLLState returns (numRegisters, numBytesPerHash, correctionBias, registers copy).
+func VerifHLLState(h *HyperLogLog) (uint64, uint64, float64, []uint8) {
+	return h.numRegisters, h.numBytesPerHash, h.correctionBias, append([]uint8(nil), h.registers...)
+}
+
+func VerifHLLRedisState(h *HyperLogLogRedis) (uint64, uint64, float64, string, string) {
+	return h.numRegisters, h.numBytesPerHash, h.correctionBias, h.key, h.metadataKey
+}
+
+// VerifHeapEntry is one entry of the Top-K heap array.
+type VerifHeapEntry struct {
+	Value     string
+	Frequency uint64
+}
+
+// VerifTopKState returns (k, errorRate, accuracy, sketch, heap array in storage order).
+func VerifTopKState(t *TopK) (uint, float64, float64, *CountMinSketch, []VerifHeapEntry) {
+	h := make([]VerifHeapEntry, len(t.heap))
+	for i := range t.heap {
+		h[i] = VerifHeapEntry{t.heap[i].value, t.heap[i].frequency}
+	}
+	return t.k, t.errorRate, t.accuracy, t.sketch, h
+}
+
+func VerifTopKRedisState(t *TopKRedis) (uint, float64, float64, *CountMinSketchRedis, string, string) {
+	return t.k, t.errorRate, t.accuracy, t.sketch, t.heapKey, t.metadataKey
+}
+
+// VerifTopKElement exposes the unexported fields of a TopKElement.
+func VerifTopKElement(e TopKElement) (string, uint64) { return e.element, e.count }
